@@ -90,15 +90,21 @@ def gen_tree_spec(rng, n=None, max_dense=1500, order=None):
             dim *= nbas(d)
         if dim > max_dense:
             continue
-        qn = rng.random() < 0.5
+        r = rng.random()
+        qn = False if r < 0.4 else (True if r < 0.75 else 2)      # none / one quantum number / two components
         nq = sum(1 for d in real if d["k"] in ("spin", "elec"))
+        ns = sum(1 for d in real if d["k"] == "spin")
+        ne = nq - ns
         if qn and nq == 0:
             qn = False
         qntot = 0
-        if qn:
+        if qn is True:
             qntot = rng.choice([nq // 2, (nq + 1) // 2, rng.randint(0, nq)])
             if nq >= 2 and qntot in (0, nq) and rng.random() < 0.8:
                 qntot = 1
+        elif qn == 2:
+            # (number of up spins, number of electrons) conserved separately
+            qntot = [rng.choice([ns // 2, (ns + 1) // 2, rng.randint(0, ns)]), rng.choice([ne // 2, (ne + 1) // 2, rng.randint(0, ne)])]
         return {"order": order, "nodes": nodes, "qn": qn, "qntot": qntot, "m": rng.choice([1, 2, 2, 3, 3, 4]),
                 "seed": rng.randrange(1, 2 ** 31)}
 
@@ -143,10 +149,18 @@ def gen_terms(rng, spec, dofs, integer_only, nterms=None):
                 ops += [[r"a^\dagger", dof], ["a", dof]] if c == "n" else ([[r"a^\dagger", dof]] if c == "c" else [["a", dof]])
         if qn:
             rng.shuffle(raise_lower)
-            while len(raise_lower) >= 2 and rng.random() < 0.7:
+            if qn == 2 and qn is not True:
+                # two components: a raising operator must be paired with a lowering one of the same kind
+                raise_lower.sort(key=lambda x: x[1])
+            rest = []
+            while len(raise_lower) >= 2:
                 (d1, k1), (d2, k2) = raise_lower.pop(), raise_lower.pop()
-                ops += [["sigma_-" if k1 == "spin" else r"a^\dagger", d1]]      # qn +1
-                ops += [["sigma_+" if k2 == "spin" else "a", d2]]               # qn -1
+                if rng.random() < 0.7 and (qn is True or k1 == k2):
+                    ops += [["sigma_-" if k1 == "spin" else r"a^\dagger", d1]]      # qn +1
+                    ops += [["sigma_+" if k2 == "spin" else "a", d2]]               # qn -1
+                else:
+                    rest += [(d1, k1), (d2, k2)]
+            raise_lower += rest
             for dof, kind in raise_lower:
                 ops += [["sigma_z", dof]] if kind == "spin" else [[r"a^\dagger", dof], ["a", dof]]
         f = rng.choice([-3, -2, -1, 1, 2, 3]) if integer_only else round(rng.uniform(-2, 2), 3) or 0.5
@@ -205,6 +219,107 @@ def gen_tie_case(rng, n=None, order=None):
     spec["seq"] = seq
     spec["cap"] = 2500
     return spec
+
+
+def gen_env_case(rng, n=None):
+    """small trees for the expectation / RDM tie over the Gaussian integers"""
+    while True:
+        spec = gen_tree_spec(rng, n if n is not None else rng.choice([1, 2, 3, 3, 4, 4, 5]), max_dense=300)
+        if sum(len(ds) for ds in spec["nodes"]) <= 6:
+            break
+    spec["state"] = {"seed": rng.randrange(1, 2 ** 31), "m": rng.choice([1, 2, 2])}
+    spec["terms"] = gen_terms(rng, spec, dofs_of(spec), True, nterms=rng.randint(1, 3))
+    keep = [[j for j in range(len(ds)) if rng.random() < 0.6] for ds in spec["nodes"]]
+    spec["keep"] = keep
+    spec["pterms"] = gen_terms(rng, spec, dofs_of(spec, keep), True, nterms=rng.randint(1, 2))
+    nn = len(spec["order"])
+    pairs = [(i, j) for i in range(nn) for j in range(nn) if i != j]
+    rng.shuffle(pairs)
+    spec["pairs"] = [list(x) for x in pairs[:4]]
+    return spec
+
+
+ENV_IMPORT = ("From Coq Require Import List ZArith.\nImport ListNotations.\n"
+              "From RV Require Import Base.CRing Model.Ttns Model.TtnsEnv.\nLocal Open Scope Z_scope.\n"
+              "Definition g (re im : Z) : arr GiRing := @AZ GiRing (re, im).\n"
+              "Definition a (l : list (arr GiRing)) : arr GiRing := @AL GiRing l.\n"
+              "Definition N := mk GiRing.\nDefinition Pn := mkp GiRing.\n")
+
+
+def coq_garr(x):
+    if isinstance(x, list) and len(x) == 2 and not isinstance(x[0], list):
+        return "g %s %s" % tuple(("%d" % v) if v >= 0 else ("(%d)" % v) for v in x)
+    return "a [" + "; ".join(coq_garr(y) for y in x) + "]"
+
+
+def coq_gstate(t):
+    return "(N %d%%nat %s %d%%nat (%s) [%s])" % (t["id"], coq_nat_list(t["pd"]), t["shape"][-1], coq_garr(t["t"]),
+                                                "; ".join(coq_gstate(c) for c in t["ch"]))
+
+
+def coq_pop(t, pds):
+    npd = len(pds[t["id"]])
+    mask = [(j in t["keep"]) for j in range(npd)]
+    return "(Pn [%s] %d%%nat %s (%s) [%s])" % ("; ".join("true" if b else "false" for b in mask), t["shape"][-1],
+                                             "false" if any(mask) else "true", coq_garr(t["t"]),
+                                             "; ".join(coq_pop(c, pds) for c in t["ch"]))
+
+
+def gflat(x, out):
+    if isinstance(x, list) and len(x) == 2 and not isinstance(x[0], list):
+        out.extend([int(x[0]), int(x[1])])
+    else:
+        for y in x:
+            gflat(y, out)
+
+
+def coq_env_case(case, r, tag):
+    """Definitions + one Eval comparing (inside Coq) expectation values, all 1-site / 1-DoF RDMs and the requested
+    2-site RDMs of the exported Gaussian-integer state with the implementation's values."""
+    st = r["state"]
+    pds, paths = {}, {}
+
+    def walk(t, path):
+        pds[t["id"]] = t["pd"]
+        paths[t["id"]] = path
+        for k, c in enumerate(t["ch"]):
+            walk(c, path + [k])
+    walk(st, [])
+    full = dict(r["op"])
+    lines = ["Definition %s_t : ttree GiRing := %s." % (tag, coq_gstate(st))]
+    # a full TTNO keeps every DoF of every node (also the dummy DoF of dummy nodes)
+    def allkeep(t):
+        t = dict(t)
+        t["keep"] = list(range(len(pds[t["id"]])))
+        t["ch"] = [allkeep(c) for c in t["ch"]]
+        return t
+    lines.append("Definition %s_o : ptree GiRing := %s." % (tag, coq_pop(allkeep(full), pds)))
+    exprs = ["gflat [texpect GiRing %s_t %s_o]" % (tag, tag)]
+    exp = list(r["e_full"])
+    if r.get("pop") is not None:
+        lines.append("Definition %s_p : ptree GiRing := %s." % (tag, coq_pop(r["pop"], pds)))
+        exprs.append("gflat [texpect GiRing %s_t %s_p]" % (tag, tag))
+        exp += r["e_part"]
+    exprs.append("gflat [texpect GiRing %s_t (pdummy_of GiRing %s_t)]" % (tag, tag))
+    exp += r["norm2"]
+    nent = 3
+    for i in sorted(pds):
+        exprs.append("gflat (rdm1_all GiRing %s_t %s %s)" % (tag, coq_nat_list(paths[i]), coq_nat_list(pds[i])))
+        gflat(r["rdm1"][str(i)], exp)
+        nent += 1
+        for j, dj in enumerate(pds[i]):
+            key = "n%d_%d" % (i, j)
+            if key in r["rdm1dof"]:
+                exprs.append("gflat (rdm1dof_all GiRing %s_t %s %d%%nat %d%%nat)" % (tag, coq_nat_list(paths[i]), j, dj))
+                gflat(r["rdm1dof"][key], exp)
+                nent += 1
+    for x in r["rdm2"]:
+        exprs.append("gflat (rdm2_all GiRing %s_t %s %s %s %s)" % (tag, coq_nat_list(paths[x["i"]]), coq_nat_list(paths[x["j"]]),
+                                                                   coq_nat_list(pds[x["i"]]), coq_nat_list(pds[x["j"]])))
+        gflat(x["t"], exp)
+        nent += 1
+    lines.append("Eval vm_compute in (zdiff (%s) [%s])." % (" ++ ".join(exprs), "; ".join(str(v) for v in exp)))
+    return "\n".join(lines) + "\n", len(exp) // 2, nent
 
 
 # ------------------------------------------------------------------------------------------- Coq text
@@ -305,6 +420,8 @@ def failure_key(f):
             return "ttns-add-single-node"
         if chk == "todense-default" and any(not ds for ds in spec["nodes"]):
             return "ttns-todense-dummy"
+        if spec.get("qn") == 2 and spec.get("qn") is not True and chk in ("expectation", "expectation-complex", "expectation1", "norm", "norm-coeff", "normalize"):
+            return "ttns-expectation-qn2"
     return "oracle-" + chk.split(":")[0]
 
 
@@ -321,7 +438,7 @@ def run(ctx):
     tm = {}
     t_ = time.time()
     # 1+2. Coq
-    ok_build, log = ctx.coq_make(["Proofs/TtnsProofs.vo"])
+    ok_build, log = ctx.coq_make(["Proofs/TtnsProofs.vo", "Proofs/TtnsEnvProofs.vo"])
     ok_props = False
     if ok_build:
         ok_props, log = ctx.props("Props/C11.v")
@@ -376,7 +493,7 @@ def run(ctx):
     rejected_mal = 0
     accepted_mal = []
     sig_seen = set()
-    dist = {"nodes": {}, "ops": {}, "max_arity": {}, "qn": {"True": 0, "False": 0}, "dummy_nodes": 0, "multi_phys_nodes": 0, "steps": 0}
+    dist = {"nodes": {}, "ops": {}, "max_arity": {}, "qn": {}, "dummy_nodes": 0, "multi_phys_nodes": 0, "steps": 0}
     samples = []
     for si, sh in enumerate(shards):
         texts = []
@@ -438,7 +555,7 @@ def run(ctx):
             kinds = tuple(s[0] for s in case["seq"][:nsteps])
             dist["nodes"][str(n)] = dist["nodes"].get(str(n), 0) + 1
             dist["max_arity"][str(ar)] = dist["max_arity"].get(str(ar), 0) + 1
-            dist["qn"][str(bool(case["qn"]))] += 1
+            dist["qn"][str(case["qn"])] = dist["qn"].get(str(case["qn"]), 0) + 1
             dist["dummy_nodes"] += sum(1 for ds in case["nodes"] if not ds)
             dist["multi_phys_nodes"] += sum(1 for ds in case["nodes"] if len(ds) > 1)
             dist["steps"] += nsteps
@@ -456,6 +573,61 @@ def run(ctx):
                      % (evals, skipped, rejected_mal, len(accepted_mal), accepted_mal[:2]))
 
     tm["tie coq"] = time.time() - t_
+    t_ = time.time()
+    # 3b. exact tie of expectation values and RDMs over the Gaussian integers
+    n_env = 400 if thorough else 36
+    ecases = [gen_env_case(rng, n) for n in (1, 2, 3)]
+    while len(ecases) < n_env:
+        ecases.append(gen_env_case(rng))
+    eshards = [ecases[i::nshard] for i in range(nshard)]
+    ers = ctx.impl_par("c11_envtie.py", [{"cases": sh, "out": os.path.join(tmpd, "env_%d.json" % i)} for i, sh in enumerate(eshards)],
+                       timeout=3000 if thorough else 1200)
+    ers = [_from_file(x) for x in ers]
+    env_bad = []
+    eitems = []
+    eexp = {}
+    env_skipped = 0
+    for si, (rc, res, out) in enumerate(ers):
+        if res is None:
+            env_bad.append({"what": "implementation script failed", "out": (out or "")[-1500:]})
+            continue
+        texts, metas = [], []
+        for ci, (case, r) in enumerate(zip(eshards[si], res["cases"])):
+            if r.get("error"):
+                env_bad.append({"what": "implementation raised", "case": case, "error": r["error"]})
+                continue
+            if r.get("skip") or not r.get("ok"):
+                env_skipped += 1
+                continue
+            txt, nval, nent = coq_env_case(case, r, "e%d" % ci)
+            texts.append(txt)
+            metas.append((case, nval, nent))
+        if texts:
+            eitems.append(("env_%d" % si, ENV_IMPORT + "\n".join(texts)))
+            eexp["env_%d" % si] = metas
+    eouts = ctx.coq_eval_many(eitems, timeout=3000 if thorough else 900) if (eitems and ok_build) else {}
+    env_cases = 0
+    env_qn2 = 0
+    env_values = 0
+    env_tensors = 0
+    for name, metas in eexp.items():
+        rc, out = eouts.get(name, (1, "not run"))
+        lists = common.parse_Z_lists(out) if rc == 0 else None
+        if lists is None or len(lists) != len(metas):
+            env_bad.append({"what": "model evaluation failed", "file": name, "rc": rc, "out": out[-1500:]})
+            continue
+        for (case, nval, nent), got in zip(metas, lists):
+            if got != [0]:
+                env_bad.append({"what": "model and implementation values differ (expectation / RDM)", "case": case,
+                                "zdiff [kind; position in the flattened (re, im) list; model; impl]": got})
+                continue
+            env_cases += 1
+            env_qn2 += 1 if (case.get("qn") == 2 and case.get("qn") is not True) else 0
+            env_values += nval
+            env_tensors += nent
+    ctx.notes.append("env tie (Gaussian integers): %d cases, %d expectation values / RDM tensors, %d complex entries compared exactly; %d of the cases have two-component quantum numbers; %d skipped"
+                     % (env_cases, env_tensors, env_values, env_qn2, env_skipped))
+    tm["env tie"] = time.time() - t_
     t_ = time.time()
     # 4. dense oracle (always)
     n_or = 1200 if thorough else 80
@@ -476,15 +648,18 @@ def run(ctx):
     or_skipped = 0
     or_crash = []
     n_contract = 0
+    n_qn2 = 0
     for rc, res, out in ro:
         if res is None:
             or_crash.append((out or "")[-1200:])
             continue
         n_contract += res.get("contract_checks", 0)
+        n_qn2 += res.get("qn2_specs_run", 0)
         or_checked += res["checked"]
         or_specs += res["specs_run"]
         or_skipped += len(res["skipped"])
         or_fail += res["failures"]
+    ctx.notes.append("oracle: %d specs with two-component quantum numbers ran (expectation, norm, normalize, RDMs, ...)" % n_qn2)
     ctx.notes.append("oracle: %d comparisons on %d specs (%d skipped: random state not constructible), %d failures; "
                      "%d logged svd_qn factorisations inside canonicalise/compress checked against the witness contract M = Q.V^T"
                      % (or_checked, or_specs, or_skipped, len(or_fail), n_contract))
@@ -531,10 +706,25 @@ def run(ctx):
         ctx.violation("tie-" + op, "correspondence Model/Ttns.v <-> %s: %d cases whose node tensors differ"
                       % ({"add": "TTNS.add (tadd/tadd_coeff)", "scale": "TTNS.scale (tscale)", "apply": "TTNO.apply (tapply)"}.get(op, "implementation run (machinery)"), len(ts)),
                       {"first": t0, "n": len(ts)}, found=found, repro=repro)
-    return {"evaluations": evals + or_checked, "distinct_nontrivial": len(sig_seen),
+    if env_bad:
+        e0 = min(env_bad, key=lambda t: len(json.dumps(t.get("case", ""))))
+        found, repro = False, None
+        same = [f for f in or_fail if (f.get("first") or f["check"]) in ("expectation", "expectation-complex", "observables", "partial-operator", "norm", "norm-coeff")]
+        if same:
+            same.sort(key=lambda f: (n_nodes(f["spec"]), len(json.dumps(f["spec"]))))
+            found, repro = True, REPRO % (json.dumps(same[0]["spec"]),)
+        elif "case" in e0:
+            sp = dict(e0["case"])
+            sp.update({"m": sp["state"]["m"], "order2": None})
+            rc, res, out = ctx.impl("c11_oracle.py", {"specs": [sp]})
+            if res and res["failures"]:
+                found, repro = True, REPRO % (json.dumps(sp),)
+        ctx.violation("tie-env", "correspondence Model/TtnsEnv.v (cenv/texpect, rdm1_site, rdm1_dof, rdm2_site) <-> TTNS.expectation, calc_1site_rdm, calc_1dof_rdm, calc_2site_rdm: %d cases differ"
+                      % len(env_bad), {"first": e0, "n": len(env_bad)}, found=found, repro=repro)
+    return {"evaluations": evals + env_values + or_checked, "distinct_nontrivial": len(sig_seen),
             "rule": "tie case = all node tensors of every step of an add/scale/apply sequence equal between Model/Ttns.v and the implementation; counted as distinct non-trivial per (tree with child order, basis kinds, operation kinds, result shapes) when the sequence contains add or apply; oracle comparisons counted separately in notes",
             "samples": samples, "exhaustive": False,
-            "tie_cases": evals, "oracle_comparisons": or_checked, "oracle_specs": or_specs,
+            "tie_cases": evals, "env_tie_cases": env_cases, "env_tie_complex_entries": env_values, "oracle_comparisons": or_checked, "oracle_specs": or_specs,
             "input_distribution": dist}
 
 
